@@ -161,7 +161,7 @@ def gen_case(rng, tier, idx):
         vols = [0.0] + [rng.choice([0.001, 0.003])] * 3 if rng.random() < 0.5 else [rng.choice([0.001, 0.003])] * 3 + [0.0]
         for i, nm in enumerate(names):
             cfg[nm] = {"extends": "MarketBase", "fundamentalVolatility": vols[i], "fundamentalDrift": [0.0, 0.0001, 0.0, -0.0001][i]}
-        cfg["simulation"]["markets"] = names + ["Index"]
+        cfg["simulation"]["markets"] = names + ["Index"] + [k_ for k_ in ("Index2", "Index3", "Index4") if k_ in cfg]
         cfg["Index"]["markets"] = list(names)
         cfg["simulation"]["fundamentalCorrelations"] = {"pairwise": [[names[1], names[2], rng.choice([-0.5, 0.6, 0.9])]]}
         corr = True
@@ -332,6 +332,8 @@ def run_case(case, res):
                 res.count("cheap_stock_run_stopped_by_the_agents_own_assertion_in_every_process(not judged further)")
             else:
                 res.count("configuration_stops_the_same_way_in_a_fresh_process(not judged further)")
+                last = [ln.strip() for ln in (out1.tb or "").strip().splitlines() if ln.strip().startswith("File ")][-1:]
+                res.count("stopped_with:%s @ %s" % (type(out1.error).__name__, (last[0].split(", in ")[-1] if last else "?")))
         else:
             res.inconc("kitchen-sink configuration aborted: %r %s" % (out1.error, (out1.tb or "")[-500:]))
         return
